@@ -121,7 +121,8 @@ AllocFail(s, cls, pz) == [s |-> [s EXCEPT !.poisoned = pz], ok |-> FALSE, p |-> 
 
 DoAlloc(s, size, pz, tf) ==
   IF s.poisoned THEN [s |-> s, ok |-> FALSE, p |-> 0, cls |-> "poisoned"]
-  ELSE IF size > MaxAllocBytes THEN AllocFail(s, "oversize", pz)
+  \* TLC integers are 32-bit signed: a NEGATIVE size stands for the unsigned 32-bit request 2^32 + size (2^31 .. 2^32-1)
+  ELSE IF size > MaxAllocBytes \/ size < 0 THEN AllocFail(s, "oversize", pz)
   ELSE
     LET o == OrderOf(size)
         h == s.heads[o]
@@ -310,7 +311,7 @@ Last == hist'[Len(hist')]
 Stepped == Len(hist') > Len(hist)
 
 (* "requests above 32 MiB fail" (and change nothing but possibly the poison flag) *)
-OversizeFails == [][(Stepped /\ Last.o.op = "Allocate" /\ Last.o.size > MaxAllocBytes)
+OversizeFails == [][(Stepped /\ Last.o.op = "Allocate" /\ (Last.o.size > MaxAllocBytes \/ Last.o.size < 0))
                       => (~Last.r.ok /\ [st' EXCEPT !.poisoned = st.poisoned] = st)]_vars
 
 (* "Freeing an invalid or already-freed pointer fails and poisons the allocator" *)
